@@ -17,6 +17,10 @@
 (*                                     name/owner/status/version labels    *)
 (*                                     match; "notfound" when there is none*)
 (*                                                                         *)
+(* A seventh call, Modify, is Update fed with the object a Query / List    *)
+(* returned (status changed): helm's own read-modify-write; it must leave  *)
+(* body and labels of the record agreeing, like Update of a fresh value.   *)
+(*                                                                         *)
 (* A release is abstract here: [name, rev, st, v]; v (variant) stands for  *)
 (* "everything else" (chart, values, manifest, hooks, timestamps, user     *)
 (* labels).  The harness concretises it with generated content and maps a  *)
@@ -71,9 +75,15 @@ Creates == {MkCall("create", r.name, r.rev, r.st, r.v, NoSel) : r \in Rel}
 Updates == {MkCall("update", r.name, r.rev, r.st, r.v, NoSel) : r \in Rel}
 Gets    == {MkCall("get", k.name, k.rev, "", 0, NoSel) : k \in Key}
 Deletes == {MkCall("delete", k.name, k.rev, "", 0, NoSel) : k \in Key}
+\* modify = read-modify-write, the way helm's own operations change a stored release (upgrade marks the
+\* current release superseded): the argument of Update is the OBJECT a preceding Query (q.owner = "helm":
+\* selector name + owner, as Storage.History) or List (q.owner = "": filter on the name) returned for this
+\* key - with whatever labels the driver put on it - with only its status changed to st.
+Modifies == {MkCall("modify", k.name, k.rev, s, 0, [name |-> k.name, owner |-> o, status |-> "", version |-> ""]) :
+               k \in Key, s \in Statuses, o \in {"helm", ""}}
 Lists   == {MkCall("list", "", 0, "", 0, q) : q \in {s \in Sel : s.owner = "" /\ s.version = ""}}
 Queries == {MkCall("query", "", 0, "", 0, q) : q \in Sel}
-AllCalls == Creates \cup Updates \cup Gets \cup Deletes \cup Lists \cup Queries
+AllCalls == Creates \cup Updates \cup Gets \cup Deletes \cup Lists \cup Queries \cup Modifies
 
 KeyOf(c) == [name |-> c.name, rev |-> c.rev]
 RelOf(c) == [name |-> c.name, rev |-> c.rev, st |-> c.st, v |-> c.v]
@@ -94,6 +104,10 @@ Apply(s, c) ==
          IF s[KeyOf(c)] = NoEntry
          THEN [kv |-> s, reply |-> MkReply("notfound", NoRel, {})]
          ELSE [kv |-> [s EXCEPT ![KeyOf(c)] = Entry(RelOf(c))], reply |-> MkReply("ok", NoRel, {})]
+    [] c.op = "modify" ->
+         IF s[KeyOf(c)] = NoEntry
+         THEN [kv |-> s, reply |-> MkReply("notfound", NoRel, {})]
+         ELSE [kv |-> [s EXCEPT ![KeyOf(c)] = Entry([s[KeyOf(c)].rel EXCEPT !.st = c.st])], reply |-> MkReply("ok", NoRel, {})]
     [] c.op = "get" ->
          IF s[KeyOf(c)] = NoEntry
          THEN [kv |-> s, reply |-> MkReply("notfound", NoRel, {})]
@@ -148,7 +162,7 @@ A_ReplyType == reply' \in ReplyType
 A_FailedUnchanged == reply'.st # "ok" => kv' = kv
 A_ReadsUnchanged  == last'.op \in {"get", "list", "query"} => kv' = kv
 \* only the addressed key can change
-A_Frame == \A k \in Key : kv'[k] # kv[k] => (last'.op \in {"create", "update", "delete"} /\ k = KeyOf(last'))
+A_Frame == \A k \in Key : kv'[k] # kv[k] => (last'.op \in {"create", "update", "delete", "modify"} /\ k = KeyOf(last'))
 
 A_Create ==
   last'.op = "create" =>
@@ -160,6 +174,17 @@ A_Update ==
   last'.op = "update" =>
     LET k == KeyOf(last') IN
     IF k \in Dom(kv) THEN reply' = MkReply("ok", NoRel, {}) /\ kv'[k] = Entry(RelOf(last'))
+    ELSE reply' = MkReply("notfound", NoRel, {})
+
+\* a release that was read, had its status changed and was written back is that release with the new
+\* status - in the body AND in the labels queries select on
+A_Modify ==
+  last'.op = "modify" =>
+    LET k == KeyOf(last') IN
+    IF k \in Dom(kv)
+    THEN /\ reply' = MkReply("ok", NoRel, {})
+         /\ kv'[k].rel = [name |-> k.name, rev |-> k.rev, st |-> last'.st, v |-> kv[k].rel.v]
+         /\ kv'[k].labels.status = last'.st
     ELSE reply' = MkReply("notfound", NoRel, {})
 
 A_Get ==
@@ -199,6 +224,7 @@ P_ReadsUnchanged  == [][A_ReadsUnchanged]_vars
 P_Frame           == [][A_Frame]_vars
 P_Create          == [][A_Create]_vars
 P_Update          == [][A_Update]_vars
+P_Modify          == [][A_Modify]_vars
 P_Get             == [][A_Get]_vars
 P_Delete          == [][A_Delete]_vars
 P_Query           == [][A_Query]_vars
